@@ -209,7 +209,7 @@ class C18(Check):
             extra = []
             for _ in range(d.rng(0, 3)):
                 extra.append(sorted(d.rng(1, 400) for _ in range(d.rng(2, 4))))
-            return {"ops": ops, "multi": extra, "cold": d.p(0.25)}
+            return {"ops": ops, "multi": extra, "cold": d.p(0.15)}
 
         return cases()
 
@@ -220,7 +220,7 @@ class C18(Check):
         if self._cold_server is None or self._cold_owner != os.getpid():
             self._cold_server = ForkServer()
             self._cold_owner = os.getpid()
-        return self.fixed_cases(tier) if shard == 0 else []
+        return [c for i, c in enumerate(self.fixed_cases(tier)) if i % nshards == shard]
 
     def fixed_cases(self, tier):
         yield {"ops": [{"kind": "sread", "schema": "dec_hi", "datum": 0, "form": "parsed"}, {"kind": "sread", "schema": "dec_lo", "datum": 0, "form": "parsed"}], "multi": []}
@@ -370,7 +370,8 @@ class C18(Check):
             pres = [self._prepare(op) for op in ops]
             for first in range(n):
                 total = steps[first]
-                pts = sorted(set(list(range(1, min(total, 25))) + list(range(1, total, max(1, total // 25)))))
+                # lazily initialised state is touched in a few lines somewhere inside the operation: fine-grained points
+                pts = list(range(1, total)) if total <= 350 else sorted(set(range(1, total, max(1, total // 350))))
                 for k in pts:
                     out = self._cold_server.call(("call", "vlib.checks.c18", "cold_job", (ops, pres, first, [k])))
                     if isinstance(out, tuple) and out and out[0] == "harness":
